@@ -57,6 +57,7 @@ class Fn:
         self.dbl_var = None    # local holding the `dbl` flag (callbacks)
         self.meta_vars = set()
         self.slots = None
+        self.problems = []     # per-element decisions taken from another element (filled by atom())
 
     def at(self, node):
         st = node if isinstance(node, ast.stmt) else astx.stmt_of(node)
@@ -219,9 +220,10 @@ def roles(F, e, at, st=None, depth=0):
     if isinstance(e, ast.IfExp):
         if isinstance(e.body, ast.Subscript) and isinstance(e.body.value, ast.Name) and \
                 isinstance(e.orelse, ast.Name) and e.orelse.id == e.body.value.id and \
-                is_isinstance_ndarray(e.test, e.orelse.id) and isinstance(e.body.slice, ast.Name):
-            base = roles(F, e.orelse, at, st, depth + 1)
-            return {(k, 'elem:' + e.body.slice.id) if s == 'whole' else UNKNOWN for k, s in base}
+                is_isinstance_ndarray(e.test, e.orelse.id) and isinstance(e.body.slice, (ast.Name, ast.Constant)):
+            whole = roles(F, e.orelse, at, st, depth + 1)
+            sc = 'elem:' + e.body.slice.id if isinstance(e.body.slice, ast.Name) else f'elem#{e.body.slice.value!r}'
+            return {(k, sc) if s == 'whole' else UNKNOWN for k, s in whole}
         v = ev3(e.test, lambda a: atom(F, a, at, st)) if st is not None else None
         out = set()
         if v is not False:
@@ -356,6 +358,84 @@ def atom(F, e, at, st):
         k, s = one_role(F, left, at, st)
         if s == 'elem:' + str(F.idx_var):
             return cmp_sentinel(base(k), o, sr, st)
+        if base(k) in ('lower', 'upper') and s.startswith('elem') and F.idx_var is not None:
+            F.problems.append((e, f'`{astx.src(e)}` tests the {base(k)} bound of {s.replace("elem:", "element ").replace("elem#", "element ")}'
+                               f', not of element {F.idx_var}'))
+        return None
+    if isinstance(e, ast.Call):
+        red = reduction(e)
+        if red is not None and 'others' in st:
+            how, inner = red
+            mine = elem3(F, inner, at, st)
+            rest = [elem3(F, inner, at, dict(st, U=u, L=l)) for u, l in st['others']]
+            vals = [mine] + rest
+            if how == 'all':
+                if any(v is False for v in vals):
+                    return False
+                return True if all(v is True for v in vals) else None
+            if any(v is True for v in vals):
+                return True
+            return False if all(v is False for v in vals) else None
+        return None
+    if isinstance(e, ast.Subscript) and isinstance(e.value, ast.Name) and F.idx_var is not None:
+        v, d = F.value_of(at, e.value.id)
+        if v is not None and elem3(F, v, d, st) is not None:
+            if isinstance(e.slice, ast.Name) and e.slice.id == F.idx_var:
+                return elem3(F, v, d, st)
+            F.problems.append((e, f'`{astx.src(e)}` reads the per-element decision of element '
+                               f'`{astx.src(e.slice)}`, not of element {F.idx_var}'))
+    return None
+
+
+def reduction(call):
+    """('all' | 'any', array expr) for X.all(), X.any(), np.all(X), np.any(X), all(X), any(X)."""
+    nm = astx.callee_attr(call)
+    if nm not in ('all', 'any') or call.keywords:
+        return None
+    if isinstance(call.func, ast.Attribute) and astx.path(call.func.value) in ('np', 'numpy') and len(call.args) == 1:
+        return nm, call.args[0]
+    if isinstance(call.func, ast.Name) and len(call.args) == 1:
+        return nm, call.args[0]
+    if isinstance(call.func, ast.Attribute) and not call.args:
+        return nm, call.func.value
+    return None
+
+
+def elem3(F, e, at, st, depth=0):
+    """Per-element three-valued value of a boolean *array* expression over whole bound vectors."""
+    if depth > 6:
+        return None
+    if isinstance(e, ast.BinOp) and isinstance(e.op, (ast.BitAnd, ast.BitOr)):
+        a, b = elem3(F, e.left, at, st, depth + 1), elem3(F, e.right, at, st, depth + 1)
+        if isinstance(e.op, ast.BitAnd):
+            return False if (a is False or b is False) else (True if (a and b) else None)
+        return True if (a is True or b is True) else (False if (a is False and b is False) else None)
+    if isinstance(e, ast.UnaryOp) and isinstance(e.op, ast.Invert):
+        v = elem3(F, e.operand, at, st, depth + 1)
+        return None if v is None else (not v)
+    if isinstance(e, ast.Call) and astx.callee_attr(e) in ('logical_and', 'logical_or', 'logical_not'):
+        vs = [elem3(F, a, at, st, depth + 1) for a in e.args]
+        nm = astx.callee_attr(e)
+        if nm == 'logical_not' and len(vs) == 1:
+            return None if vs[0] is None else (not vs[0])
+        if len(vs) == 2 and nm == 'logical_and':
+            return False if False in vs else (True if all(v is True for v in vs) else None)
+        if len(vs) == 2:
+            return True if True in vs else (False if all(v is False for v in vs) else None)
+        return None
+    if isinstance(e, ast.Name):
+        v, d = F.value_of(at, e.id)
+        return None if v is None else elem3(F, v, d, st, depth + 1)
+    if isinstance(e, ast.Compare) and len(e.ops) == 1 and type(e.ops[0]) in _OPS:
+        left, right, o = e.left, e.comparators[0], _OPS[type(e.ops[0])]
+        sl, sr = sentinel(left), sentinel(right)
+        if sl is not None and sr is None:
+            left, right, o, sr = right, left, _SWAP[o], sl
+        if sr is None:
+            return None
+        k, s = one_role(F, left, at, st)
+        if s == 'whole' and base(k) in ('lower', 'upper'):
+            return cmp_sentinel(base(k), o, sr, st)
     return None
 
 
@@ -363,8 +443,25 @@ STATES = [dict(U=True, L=False, E=False), dict(U=False, L=True, E=False), dict(U
           dict(U=False, L=False, E=False), dict(U=False, L=False, E=True)]
 
 
+_TYPES = [(True, True), (True, False), (False, True), (False, False)]
+
+
+def ext_states(st):
+    """The state of element j combined with every set of (U, L) types among the *other* elements."""
+    if st['E']:
+        return [dict(st, others=()), dict(st, others=((False, False),))]
+    out = []
+    for m in range(16):
+        out.append(dict(st, others=tuple(t for i, t in enumerate(_TYPES) if m >> i & 1)))
+    return out
+
+
 def fmt_state(st):
-    return '{' + ', '.join(f'{k}={int(v) if isinstance(v, bool) else v}' for k, v in st.items()) + '}'
+    def f(k, v):
+        if k == 'others':
+            return 'other elements (U,L) in ' + (str([(int(a), int(b)) for a, b in v]) if v else '[]')
+        return f'{k}={int(v) if isinstance(v, bool) else v}'
+    return '{' + ', '.join(f(k, v) for k, v in st.items()) + '}'
 
 
 # --------------------------------------------------------------------------- producer slot protocol
@@ -810,6 +907,7 @@ def presence(R, em, st):
     good, _ = R.appends(em['var'])
     if not good:
         return False
+    R.F.problems = []
     vals = [cond3(R.F, n.ast, st, stop=em['loop']) for n in good if R.loop_of(n.ast) is em['loop']]
     c0 = cond3(R.F, em['stmt'], st, stop=em['loop'])
     if c0 is False or not vals:
@@ -836,7 +934,7 @@ def type_in(R, em, st):
 
 
 # =============================================================================== rules
-@rule('C21.loopdef', floor=4)
+@rule('C21.loopdef', floor=2)
 def loopdef(repo, out):
     """A per-element read `v[j]` in a `for j` loop never sees a loop-carried `v = v[...]` rebinding (F6)."""
     R = run_of(repo)
@@ -949,91 +1047,117 @@ def cover(repo, out):
             out.ok(R.fn, em['args'], f"{em['var']}: args = [name, {em['dbl']}, {em['loop'].target.id}]")
     n_checked = 0
     reported = set()
-    for st in STATES:
-        present = []
-        unknown = False
-        for em in ems:
-            p = presence(R, em, st)
-            if p is None:
-                unknown = True
-            elif p:
-                present.append(em)
-        if unknown:
-            out.unsure(R.fn, ems[0]['loop'], f'cannot decide which dictionaries are emitted in state {fmt_state(st)}')
-            continue
-        forms = []
-        bad = None
-        for em in present:
-            if em['fun'] is None:
-                out.unsure(R.fn, em['stmt'], "the 'fun' entry is not a WeakMethodWrapper(self, name)")
-                bad = 'unsure'
-                break
-            cb = callback(repo, em['fun'], R.F.slots)
-            if cb.rebound:
-                if em['fun'] not in reported:
-                    reported.add(em['fun'])
-                    cb.params_intact(out)
-                bad = 'unsure'
-                break
-            s2 = dict(st, dbl=em['dbl'])
-            rets, fell = cb.returns(s2)
-            fset = set()
-            for r in rets:
-                vf = cb.value_form(r, s2)
-                if vf is None:
-                    out.unsure(cb.fn, r.ast, f'unrecognised constraint form in state {fmt_state(s2)}')
-                    bad = 'unsure'
-                    break
-                if vf[2]:
-                    bad = (cb.fn, r.ast, f'{vf[2]} (state {fmt_state(s2)})', 'wrong-element')
-                fset.add(vf[:2])
-            if bad == 'unsure':
-                break
-            if fell or len(fset) != 1:
-                if bad is None:
-                    bad = (cb.fn, cb.fn.node, f'{em["fun"]} returns {sorted(fset)} / falls through in state '
-                           f'{fmt_state(s2)}: the form is not a function of (dbl, bounds)', 'ambiguous-form')
+    for base_st in STATES:
+        verdict = None      # first ('bad' | 'unsure', payload) over all sets of other elements
+        forms_shown = None
+        for st in ext_states(base_st):
+            n_checked += 1
+            r = _cover_state(repo, R, ems, st, reported, out)
+            if r[0] == 'ok':
+                if forms_shown is None:
+                    forms_shown = r[1]
                 continue
-            kind, sign = next(iter(fset))
-            ty = type_in(R, em, st)
-            if ty is None:
-                out.unsure(R.fn, em['stmt'], f"cannot decide the 'type' of {em['var']} in state {fmt_state(st)}")
-                bad = 'unsure'
+            if verdict is None or (verdict[0] == 'unsure' and r[0] == 'bad'):
+                verdict = r
+            if r[0] == 'bad':
                 break
-            forms.append((kind, sign, ty, em))
-            if bad is None and not _form_ok(kind, sign) and kind != 'raw':
-                nice = {('upper', 1): 'value - upper', ('lower', -1): 'lower - value'}[(kind, sign)]
-                bad = (cb.fn, rets[0].ast, f'with dbl={em["dbl"]} in state {fmt_state(st)} the callback returns '
-                       f'`{nice}`, which scipy (feasible when >= 0) reads as the opposite inequality', 'form-sign')
-            if bad is None and kind == 'raw':
-                bad = (cb.fn, rets[0].ast, 'old-style callback returns the raw value: no bound is applied',
-                       'form-raw')
-            if bad is None and st['E'] and (ty != 'eq' or kind != 'equals'):
-                bad = (R.fn, em['stmt'], f"equality constraint is emitted as type {ty!r} with form {kind}: "
-                       "the equals value is not enforced", 'eq-type')
-            if bad is None and not st['E'] and (ty != 'ineq' or kind == 'equals'):
-                bad = (R.fn, em['stmt'], f"inequality element is emitted as type {ty!r} with form {kind} in state "
-                       f"{fmt_state(st)}", 'ineq-type')
-        if bad == 'unsure':
-            continue
-        if bad is None and not st['E']:
-            if st['U'] and not any(k == 'upper' and s == -1 for k, s, t, e in forms):
-                bad = (R.fn, ems[0]['loop'], f'in state {fmt_state(st)} (finite upper bound) no emitted call '
-                       f'returns upper - value: emitted {[(e["var"], e["dbl"], k) for k, s, t, e in forms]}; the '
-                       'upper bound of that element is never shown to the optimizer', 'upper-uncovered')
-            elif st['L'] and not any(k == 'lower' and s == 1 for k, s, t, e in forms):
-                bad = (R.fn, ems[0]['loop'], f'in state {fmt_state(st)} (finite lower bound) no emitted call '
-                       f'returns value - lower: emitted {[(e["var"], e["dbl"], k) for k, s, t, e in forms]}; the '
-                       'lower bound of that element is never shown to the optimizer', 'lower-uncovered')
-        if bad is None and st['E'] and not forms:
-            bad = (R.fn, ems[0]['loop'], 'no dictionary is emitted for an equality element', 'eq-type')
-        n_checked += 1
-        if bad:
-            out.bad(bad[0], bad[1], bad[2], key=bad[3])
-        else:
-            out.ok(R.fn, ems[0]['loop'], f'state {fmt_state(st)}: emitted '
-                   f'{[(e["var"], "dbl=%s" % e["dbl"], t, k) for k, s, t, e in forms]}')
+        if verdict is None:
+            out.ok(R.fn, ems[0]['loop'], f'state {fmt_state(base_st)}, any other elements: emitted '
+                   f'{[(e["var"], "dbl=%s" % e["dbl"], t, k) for k, s, t, e in forms_shown or []]}')
+        elif verdict[0] == 'bad':
+            w = verdict[1]
+            out.bad(w[0], w[1], w[2], key=w[3])
+        elif verdict[1] is not None:
+            out.unsure(*verdict[1])
     out.count('states', n_checked)
+
+
+def _cover_state(repo, R, ems, st, reported, out):
+    """Decide one abstract state: ('ok', forms) | ('bad', (where, node, why, key)) | ('unsure', (where, node, why) | None)."""
+    present = []
+    unknown = False
+    problems = []
+    for em in ems:
+        p = presence(R, em, st)
+        problems += R.F.problems
+        if p is None:
+            unknown = True
+        elif p:
+            present.append(em)
+    if problems:
+        node, why = problems[0]
+        return 'bad', (R.fn, astx.stmt_of(node), f'the decision which dictionaries are emitted for element '
+                       f'{ems[0]["loop"].target.id} is not taken from that element\'s own bounds: {why}; with a mixed '
+                       'bound pattern an element gets the dictionaries of another one and its finite upper (or lower) '
+                       'bound is never shown to the optimizer', 'dbl-other-element')
+    if unknown:
+        return 'unsure', (R.fn, ems[0]['loop'], f'cannot decide which dictionaries are emitted in state {fmt_state(st)}')
+    forms = []
+    bad = None
+    for em in present:
+        if em['fun'] is None:
+            return 'unsure', (R.fn, em['stmt'], "the 'fun' entry is not a WeakMethodWrapper(self, name)")
+        cb = callback(repo, em['fun'], R.F.slots)
+        if cb.rebound:
+            if em['fun'] not in reported:
+                reported.add(em['fun'])
+                cb.params_intact(out)
+            return 'unsure', None
+        s2 = dict(U=st['U'], L=st['L'], E=st['E'], dbl=em['dbl'])
+        memo = cb.__dict__.setdefault('_forms', {})
+        mk = (s2['U'], s2['L'], s2['E'], s2['dbl'])
+        if mk not in memo:
+            rets, fell = cb.returns(s2)
+            memo[mk] = (rets, fell, [cb.value_form(r, s2) for r in rets])
+        rets, fell, vfs = memo[mk]
+        fset = set()
+        for r, vf in zip(rets, vfs):
+            if vf is None:
+                return 'unsure', (cb.fn, r.ast, f'unrecognised constraint form in state {fmt_state(s2)}')
+            if vf[2]:
+                bad = (cb.fn, r.ast, f'{vf[2]} (state {fmt_state(s2)})', 'wrong-element')
+            fset.add(vf[:2])
+        if fell or len(fset) != 1:
+            if bad is None:
+                bad = (cb.fn, cb.fn.node, f'{em["fun"]} returns {sorted(fset)} / falls through in state '
+                       f'{fmt_state(s2)}: the form is not a function of (dbl, bounds)', 'ambiguous-form')
+            continue
+        kind, sign = next(iter(fset))
+        ty = type_in(R, em, st)
+        if ty is None:
+            return 'unsure', (R.fn, em['stmt'], f"cannot decide the 'type' of {em['var']} in state {fmt_state(st)}")
+        forms.append((kind, sign, ty, em))
+        if bad is None and not _form_ok(kind, sign) and kind != 'raw':
+            nice = {('upper', 1): 'value - upper', ('lower', -1): 'lower - value'}[(kind, sign)]
+            bad = (cb.fn, rets[0].ast, f'with dbl={em["dbl"]} in state {fmt_state(s2)} the callback returns '
+                   f'`{nice}`, which scipy (feasible when >= 0) reads as the opposite inequality', 'form-sign')
+        if bad is None and kind == 'raw':
+            bad = (cb.fn, rets[0].ast, 'old-style callback returns the raw value: no bound is applied', 'form-raw')
+        if bad is None and st['E'] and (ty != 'eq' or kind != 'equals'):
+            bad = (R.fn, em['stmt'], f"equality constraint is emitted as type {ty!r} with form {kind}: "
+                   "the equals value is not enforced", 'eq-type')
+        if bad is None and not st['E'] and (ty != 'ineq' or kind == 'equals'):
+            bad = (R.fn, em['stmt'], f"inequality element is emitted as type {ty!r} with form {kind} in state "
+                   f"{fmt_state(s2)}", 'ineq-type')
+    if bad is None and not st['E']:
+        hint = ''
+        if st.get('others'):
+            hint = (' (the emission depends on the bounds of the *other* elements of the array, e.g. a whole-array '
+                    'np.all/np.any taken outside the element loop)')
+        shown = [(e["var"], e["dbl"], k) for k, s, t, e in forms]
+        if st['U'] and not any(k == 'upper' and s == -1 for k, s, t, e in forms):
+            bad = (R.fn, ems[0]['loop'], f'in state {fmt_state(st)} (finite upper bound) no emitted call returns '
+                   f'upper - value: emitted {shown}; the upper bound of that element is never shown to the '
+                   f'optimizer{hint}', 'upper-uncovered')
+        elif st['L'] and not any(k == 'lower' and s == 1 for k, s, t, e in forms):
+            bad = (R.fn, ems[0]['loop'], f'in state {fmt_state(st)} (finite lower bound) no emitted call returns '
+                   f'value - lower: emitted {shown}; the lower bound of that element is never shown to the '
+                   f'optimizer{hint}', 'lower-uncovered')
+    if bad is None and st['E'] and not forms:
+        bad = (R.fn, ems[0]['loop'], 'no dictionary is emitted for an equality element', 'eq-type')
+    if bad:
+        return 'bad', bad
+    return 'ok', forms
 
 
 @rule('C21.sign', floor=3)
@@ -1563,6 +1687,152 @@ def status(repo, out):
         raise AnalysisError('Driver._run never sets self.result.success')
 
 
+def mask_pol(F, e, at, depth=0):
+    """'inf' / 'fin': e is the boolean mask of the infinite / finite entries of a bound array; else None."""
+    if depth > 6:
+        return None
+    flip = {'inf': 'fin', 'fin': 'inf', None: None}
+    if isinstance(e, ast.Name):
+        v, d = F.value_of(at, e.id)
+        return None if v is None else mask_pol(F, v, d, depth + 1)
+    if isinstance(e, ast.UnaryOp) and isinstance(e.op, ast.Invert):
+        return flip[mask_pol(F, e.operand, at, depth + 1)]
+    if isinstance(e, ast.Call) and astx.callee_attr(e) == 'logical_not' and len(e.args) == 1:
+        return flip[mask_pol(F, e.args[0], at, depth + 1)]
+    if isinstance(e, ast.IfExp):
+        a, b = mask_pol(F, e.body, at, depth + 1), mask_pol(F, e.orelse, at, depth + 1)
+        return a if a == b else None
+    if isinstance(e, ast.Compare) and len(e.ops) == 1 and type(e.ops[0]) in _OPS:
+        left, right, o = e.left, e.comparators[0], _OPS[type(e.ops[0])]
+        sl, sr = sentinel(left), sentinel(right)
+        if sl is not None and sr is None:
+            o, sr = _SWAP[o], sl
+        if sr is None:
+            return None
+        if sr < 0:
+            return {'<=': 'inf', '==': 'inf', '<': 'inf', '>': 'fin', '!=': 'fin'}.get(o)
+        return {'>=': 'inf', '==': 'inf', '>': 'inf', '<': 'fin', '!=': 'fin'}.get(o)
+    return None
+
+
+_PATTERNS = ('all entries finite', 'finite and infinite entries mixed', 'all entries infinite')
+
+
+def _mask_truth(pol, how, pattern):
+    """Value of <mask>.all() / .any() for a bound array with the given pattern."""
+    allfin, mixed, allinf = (pattern == x for x in _PATTERNS)
+    if pol == 'inf':
+        return allinf if how == 'all' else not allfin
+    return allfin if how == 'all' else not allinf
+
+
+@rule('C21.scalebound', floor=2)
+def scalebound(repo, out):
+    """Autoscaler._scale_bound shifts and scales the finite entries of a bound on every path where some entry is finite (all finite / mixed / all infinite)."""
+    fn = repo.func(AUTO, 'Autoscaler._scale_bound')
+    F = Fn(fn)
+    g = F.g
+    if len(F.params) < 4:
+        raise AnalysisError('_scale_bound: expected (self, val, adder, scaler, ...)')
+    pnames = {'adder': F.params[2], 'scaler': F.params[3]}
+    rebound = [n for n in g.nodes if n.kind in ('stmt', 'iter', 'with') and n.ast is not None and
+               any(isinstance(t, ast.Name) and t.id in pnames.values() for t in astx.assigned_targets(n.ast))]
+    if rebound:
+        raise AnalysisError('_scale_bound rebinds adder/scaler')
+    ops = {'adder': [], 'scaler': []}
+    for n in g.where(lambda n: n.kind == 'stmt' and isinstance(n.ast, ast.AugAssign)):
+        a = n.ast
+        kind = None
+        if isinstance(a.op, ast.Add) and astx.mentions(a.value, pnames['adder']):
+            kind = 'adder'
+        elif isinstance(a.op, ast.Mult) and astx.mentions(a.value, pnames['scaler']):
+            kind = 'scaler'
+        if kind:
+            ops[kind].append(n)
+    for kind, nodes in ops.items():
+        if not nodes:
+            raise AnalysisError(f'_scale_bound: no in-place application of the {kind} found')
+        # which entries are touched
+        verdict = None
+        for n in nodes:
+            t = n.ast.target
+            if isinstance(t, ast.Name):
+                continue
+            pol = mask_pol(F, t.slice, n) if isinstance(t, ast.Subscript) else None
+            if pol == 'inf':
+                verdict = ('bad', n, f'the {kind} is applied to the *infinite* entries (`{astx.src(t)}`): the finite '
+                           'bounds stay in model units while the constraint values are driver-scaled', f'scale-mask-{kind}')
+            elif pol is None:
+                verdict = verdict or ('unsure', n, f'cannot tell which entries `{astx.src(t)}` selects')
+        # on which paths
+        if verdict is None:
+            for pattern in _PATTERNS[:2]:
+                def decide(test, node, strict):
+                    def at(a):
+                        if isinstance(a, ast.Compare) and len(a.ops) == 1 and isinstance(a.ops[0], (ast.Is, ast.IsNot)) \
+                                and isinstance(a.comparators[0], ast.Constant) and a.comparators[0].value is None \
+                                and isinstance(a.left, ast.Name) and a.left.id == pnames[kind]:
+                            return isinstance(a.ops[0], ast.IsNot)
+                        if isinstance(a, ast.Call):
+                            red = reduction(a)
+                            if red is not None:
+                                pol = mask_pol(F, red[1], node)
+                                if pol is not None:
+                                    return _mask_truth(pol, red[0], pattern)
+                        return None
+                    v = ev3(test, at)
+                    if v is None and strict:
+                        # an undecided test that talks about a mask blocks the definite search
+                        if any(isinstance(x, ast.Name) and mask_pol(F, x, node) is not None for x in astx.walk(test)):
+                            return 'block'
+                    return v
+
+                def escape(strict):
+                    seen, stack, par = {g.entry}, [g.entry], {}
+                    while stack:
+                        n = stack.pop()
+                        if n in nodes:
+                            continue
+                        if (n.kind == 'stmt' and isinstance(n.ast, ast.Return)) or n is g.exit:
+                            pth = [n]
+                            while pth[-1] in par:
+                                pth.append(par[pth[-1]])
+                            return pth[::-1]
+                        v = None
+                        if n.kind == 'test' and isinstance(n.ast, (ast.If, ast.While)):
+                            v = decide(n.ast.test, n, strict)
+                            if v == 'block':
+                                continue
+                        for m, lab in g.succ[n]:
+                            if lab == 'exc' or (v is not None and lab in ('true', 'false') and (lab == 'true') != v):
+                                continue
+                            if m not in seen:
+                                seen.add(m)
+                                par[m] = n
+                                stack.append(m)
+                    return None
+                w = escape(True)
+                if w is not None:
+                    tests = [x for x in w if x.kind == 'test']
+                    verdict = ('bad', tests[-1] if tests else nodes[0],
+                               f'for a bound array with {pattern} and {kind} given, _scale_bound can return without '
+                               f'applying the {kind} to the finite entries: {g.fmt_path(w)}; those bounds stay in model '
+                               'units while the constraint values handed to the optimizer are driver-scaled, so the '
+                               'optimizer enforces a different bound than the declared one', f'scale-skipped-{kind}')
+                    break
+                w = escape(False)
+                if w is not None:
+                    verdict = ('unsure', nodes[0], f'cannot decide whether the {kind} is applied for {pattern}: '
+                               + g.fmt_path(w))
+        if verdict is None:
+            out.ok(fn, nodes[0].ast, f'{kind}: applied to the finite entries on every path for "all finite" and "mixed" '
+                   'bound arrays (scalar bounds take the same path after np.full)')
+        elif verdict[0] == 'bad':
+            out.bad(fn, verdict[1].ast, verdict[2], key=verdict[3])
+        else:
+            out.unsure(fn, verdict[1].ast, verdict[2])
+
+
 # =============================================================================== self-test
 _S = SCIPY
 _OLD_ELEM = ("                        upper_j = upper[j] if isinstance(upper, np.ndarray) else upper\n"
@@ -1570,7 +1840,8 @@ _OLD_ELEM = ("                        upper_j = upper[j] if isinstance(upper, np
              "\n"
              "                        dblcon = (upper_j < INF_BOUND) and (lower_j > -INF_BOUND)\n")
 _FIX_LINEAR_OLD = ("                        con = LinearConstraint(A=lincongrad[self._con_idx[name]],\n"
-                   "                                               lb=lb, ub=ub, keep_feasible=True)\n")
+                   "                                               lb=lb, ub=ub, keep_feasible=True)\n"
+                   "                        constraints.append(con)\n")
 _FIX_LINEAR_NEW = ("                        rows = slice(self._con_idx[name], self._con_idx[name] + size)\n"
                    "                        offset = self._con_cache[name] - lincongrad[rows] @ x_init\n"
                    "                        con = LinearConstraint(A=lincongrad[rows],\n"
@@ -1578,7 +1849,7 @@ _FIX_LINEAR_NEW = ("                        rows = slice(self._con_idx[name], se
                    "                        constraints.append(con)\n")
 _FIX_APPEND_OLD = ("                                    WeakMethodWrapper(self, '_congradfunc'), args)\n"
                    "                            )\n"
-                   "                    constraints.append(con)\n")
+                   "                            constraints.append(con)\n")
 _FIX_APPEND_NEW = ("                                    WeakMethodWrapper(self, '_con_val_gradfunc'), args)\n"
                    "                            )\n"
                    "                            constraints.append(con)\n")
@@ -1624,13 +1895,37 @@ selftest(
            "                    for j in range(size):\n                        con_dict = {}\n",
            "                    con_dict = {}\n                    for j in range(size):\n", 'C21.emit'),
     Mutant('emit-linear-not-appended', _S,
-           "                                    WeakMethodWrapper(self, '_congradfunc'), args)\n"
-           "                            )\n"
-           "                    constraints.append(con)\n",
-           "                                    WeakMethodWrapper(self, '_congradfunc'), args)\n"
-           "                            )\n"
-           "                            constraints.append(con)\n", 'C21.emit'),
+           "lb=lb, ub=ub, keep_feasible=True)\n                        constraints.append(con)\n",
+           "lb=lb, ub=ub, keep_feasible=True)\n", 'C21.emit'),
+    Mutant('emit-prefix-append-outside-loop', _S,          # the shape repaired in /repo (finding of this module)
+           "                            )\n                            constraints.append(con)\n",
+           "                            )\n                    constraints.append(con)\n", 'C21.emit',
+           also=[(_S, "lb=lb, ub=ub, keep_feasible=True)\n                        constraints.append(con)\n",
+                  "lb=lb, ub=ub, keep_feasible=True)\n")]),
+    Mutant('emit-newstyle-append-dedented-once', _S,
+           "                            )\n                            constraints.append(con)\n",
+           "                            )\n                        constraints.append(con)\n", 'C21.emit'),
     # ---- cover
+    Mutant('cover-seed-dblcon-np-all-hoisted', _S, _OLD_ELEM, "", 'C21.cover',      # /tmp/seed/C21/seed_out/1
+           also=[(_S, "                    for j in range(size):\n                        con_dict = {}\n",
+                  "                    dblcon = np.all(upper < INF_BOUND) and np.all(lower > -INF_BOUND)\n\n"
+                  "                    for j in range(size):\n                        con_dict = {}\n")]),
+    Mutant('cover-dblcon-method-all-hoisted', _S, _OLD_ELEM, "", 'C21.cover',
+           also=[(_S, "                    for j in range(size):\n                        con_dict = {}\n",
+                  "                    dblcon = ((upper < INF_BOUND) & (lower > -INF_BOUND)).all()\n\n"
+                  "                    for j in range(size):\n                        con_dict = {}\n")]),
+    Mutant('cover-dblcon-all-upper-in-loop', _S, "dblcon = (upper_j < INF_BOUND) and (lower_j > -INF_BOUND)",
+           "dblcon = np.all(upper < INF_BOUND) and (lower_j > -INF_BOUND)", 'C21.cover'),
+    Mutant('cover-dblcon-element-0', _S, "upper_j = upper[j] if isinstance(upper, np.ndarray) else upper",
+           "upper_j = upper[0] if isinstance(upper, np.ndarray) else upper", 'C21.cover'),
+    Mutant('cover-dblcon-hoisted-first-element', _S, _OLD_ELEM, "", 'C21.cover',
+           also=[(_S, "                    for j in range(size):\n                        con_dict = {}\n",
+                  "                    dblcon = (upper[0] < INF_BOUND) and (lower[0] > -INF_BOUND)\n\n"
+                  "                    for j in range(size):\n                        con_dict = {}\n")]),
+    Mutant('cover-dblcon-mask-wrong-index', _S, _OLD_ELEM, "                        dblcon = dbl_mask[0]\n", 'C21.cover',
+           also=[(_S, "                    for j in range(size):\n                        con_dict = {}\n",
+                  "                    dbl_mask = (upper < INF_BOUND) & (lower > -INF_BOUND)\n\n"
+                  "                    for j in range(size):\n                        con_dict = {}\n")]),
     Mutant('cover-dbl-never', _S, "and (lower_j > -INF_BOUND)", "and (lower_j > INF_BOUND)", 'C21.cover'),
     Mutant('cover-confunc-and', _S, "        if dbl or (lower <= -INF_BOUND):\n            return upper - cons[name][idx]",
            "        if dbl and (lower <= -INF_BOUND):\n            return upper - cons[name][idx]", 'C21.cover'),
@@ -1724,6 +2019,16 @@ selftest(
     Mutant('slots-vector-from-wrong-data', AUTO, "lower_vec = OptimizerVector(voi_type, lower_data, vecmeta)",
            "lower_vec = OptimizerVector(voi_type, upper_data, vecmeta)", 'C21.slots'),
     Mutant('slots-lower-default-sign', AUTO, "meta.get('lower', -INF_BOUND), adder", "meta.get('lower', INF_BOUND), adder", 'C21.slots'),
+    # ---- scalebound
+    Mutant('scalebound-seed-not-any', AUTO, "        if not inf_mask.all():\n", "        if not inf_mask.any():\n",
+           'C21.scalebound'),                                                     # /tmp/seed/C21/seed_out/3
+    Mutant('scalebound-finite-all', AUTO, "        if not inf_mask.all():\n            finite = ~inf_mask\n",
+           "        finite = ~inf_mask\n        if finite.all():\n", 'C21.scalebound'),
+    Mutant('scalebound-guard-inverted', AUTO, "        if not inf_mask.all():\n", "        if inf_mask.all():\n", 'C21.scalebound'),
+    Mutant('scalebound-scaler-on-infinite', AUTO, "                val_arr[finite] *= scaler", "                val_arr[inf_mask] *= scaler",
+           'C21.scalebound'),
+    Mutant('scalebound-adder-early-return', AUTO, "        if not inf_mask.all():\n",
+           "        if inf_mask.any():\n            return val_arr.ravel()\n        if not inf_mask.all():\n", 'C21.scalebound'),
     # ---- index
     Mutant('index-nl-start-0', _S, "        nl_i = 1  # start at 1", "        nl_i = 0  # start at 1", 'C21.index'),
     Mutant('index-advance-before-store', _S, "                    self._con_idx[name] = nl_i\n                    nl_i += size\n",
@@ -1787,6 +2092,27 @@ selftest(
     Twin('twin-objfunc-rename-and-kw', _S, "            self._con_cache = self.get_constraint_values()\n\n        except Exception:",
          "            self._con_cache = self.get_constraint_values(driver_scaling=True)\n\n        except Exception:"),
     Twin('twin-status-temp', _S, "            self.fail = not result.success\n", "            self.fail = not result.success\n            failed = self.fail\n"),
+    Twin('twin-dblcon-mask-hoisted', _S, _OLD_ELEM, "                        dblcon = dbl_mask[j]\n",
+         also=[(_S, "                    for j in range(size):\n                        con_dict = {}\n",
+                "                    dbl_mask = (upper < INF_BOUND) & (lower > -INF_BOUND)\n\n"
+                "                    for j in range(size):\n                        con_dict = {}\n")]),
+    Twin('twin-dblcon-any-overemits-harmlessly', _S, _OLD_ELEM, "",
+         also=[(_S, "                    for j in range(size):\n                        con_dict = {}\n",
+                "                    dblcon = np.any(upper < INF_BOUND) and np.any(lower > -INF_BOUND)\n\n"
+                "                    for j in range(size):\n                        con_dict = {}\n")]),
+    Twin('twin-scalebound-finite-any', AUTO, "        if not inf_mask.all():\n            finite = ~inf_mask\n",
+         "        finite = ~inf_mask\n        if finite.any():\n"),
+    Twin('twin-scalebound-invert-any', AUTO, "        if not inf_mask.all():\n", "        if (~inf_mask).any():\n"),
+    Twin('twin-scalebound-np-all', AUTO, "        if not inf_mask.all():\n", "        if not np.all(inf_mask):\n"),
+    Twin('twin-scalebound-unguarded', AUTO,
+         "        if not inf_mask.all():\n            finite = ~inf_mask\n            if adder is not None:\n"
+         "                val_arr[finite] += adder if np.isscalar(adder) else np.asarray(adder)[finite]\n"
+         "            if scaler is not None:\n"
+         "                val_arr[finite] *= scaler if np.isscalar(scaler) else np.asarray(scaler)[finite]\n",
+         "        finite = ~inf_mask\n        if adder is not None:\n"
+         "            val_arr[finite] += adder if np.isscalar(adder) else np.asarray(adder)[finite]\n"
+         "        if scaler is not None:\n"
+         "            val_arr[finite] *= scaler if np.isscalar(scaler) else np.asarray(scaler)[finite]\n"),
     Twin('twin-repaired-newstyle', _S, _FIX_LINEAR_OLD, _FIX_LINEAR_NEW,
          also=[(_S, _FIX_APPEND_OLD, _FIX_APPEND_NEW), (_S, _FIX_GRAD_OLD, _FIX_GRAD_NEW)]),
 )
